@@ -461,6 +461,8 @@ func c10Gen(r *Rng, tier string, idx int) (string, func() string) {
 		return "src udp opens 1 sched udpFail", func() string { return lcUDPFail(idx, false) }
 	case idx == 1:
 		return "src udp opens 1 sched udpBusy", func() string { return lcUDPFail(idx, true) }
+	case idx == 200 || (tier == "thorough" && idx%211 == 7):
+		return "src abaco opens 1 sched abacoSelfEnd", func() string { return lcAbacoSelfEnd(idx) }
 	case idx == 2 || idx == 130 || (tier == "thorough" && idx%97 == 5):
 		kd := []string{"tri", "loop", "sim"}[idx%3]
 		holdMs := 3200 + 300*(idx%3)
@@ -819,13 +821,13 @@ func lcHoldStop(kind string, idx, at, holdMs int) string {
 		return h.finish(true)
 	}
 	h.flagOn()
-	if kind == "loop" {
-		h.feedBlocks(3, false)
-	}
 	site := []string{"loop.select", "loop.gotBlock"}[at]
 	dastard.VerifGate(site)
+	if kind == "loop" {
+		h.feedBlocks(3, false) // after the gate is set: the loop reaches the site again with these blocks
+	}
 	// wait until the loop is parked there
-	lcWaitTrace(2*time.Second, func([]dastard.VerifEvent) bool {
+	parked := lcWaitTrace(3*time.Second, func([]dastard.VerifEvent) bool {
 		for _, w := range dastard.VerifParked() {
 			if w.Site == site {
 				return true
@@ -833,6 +835,10 @@ func lcHoldStop(kind string, idx, at, holdMs int) string {
 		}
 		return false
 	})
+	if !parked { // (cannot happen unless the machine is badly overloaded) no hold, no claim
+		dastard.VerifNote("note.holdSkipped")
+		return h.finish(true)
+	}
 	k := h.spawnStopNoSettle()
 	returned := k.wait(time.Duration(holdMs) * time.Millisecond)
 	// what the real object says while the loop is still held
